@@ -37,6 +37,11 @@ def build_corpus(tier, seed):
     for variants in c04.shapes(rnd):
         for sh in gen.SHELLS:
             fam.append(corpus.finish(gen.case(variants, [], shell=sh), len(cases) + len(rc) + len(dag) + len(fam) + 1, origin="family"))
+    # a group's description and literals inside it that have their own (the group's goes to the first literal without one)
+    from props import c14
+    for vs, defs in c14.described_groups():
+        for sh in ("fish", "zsh"):
+            fam.append(corpus.finish(gen.case([t for _, t in vs], defs, shell=sh), len(cases) + len(rc) + len(dag) + len(fam) + 1, origin="family"))
     return cases + rc + dag + fam, total, exh_complete
 
 
